@@ -207,7 +207,7 @@ type c14Conn struct {
 }
 
 type c14Op struct {
-	K string `json:"k"`           // pick adv burst par
+	K string `json:"k"`           // pick adv burst par gate rel
 	J int    `json:"j,omitempty"` // latency = Lat*J/8 (0: completed at the instant of the pick)
 	C int    `json:"c,omitempty"` // error code selector
 	B bool   `json:"b,omitempty"` // mixed mode: acceptable?
@@ -233,7 +233,33 @@ type c14Pend struct {
 	start int64
 	okSel bool // mixed mode decision
 	sel   int
+	gate  bool // reported with an error value whose classification blocks until released
 	done  func(balancer.DoneInfo)
+}
+
+// c14GateErr: a completion error whose gRPC status is produced lazily — GRPCStatus()
+// blocks until the harness releases it (a lock, a log call, lazy status construction in
+// the caller's error type). While one completion of a connection is classifying such a
+// value, other completions of the same connection start and finish.
+type c14GateErr struct {
+	code    grpccodes.Code
+	release chan struct{}
+}
+
+func (e *c14GateErr) Error() string { return "c14: status not built yet" }
+func (e *c14GateErr) GRPCStatus() *status.Status {
+	<-e.release
+	return status.New(e.code, "gated")
+}
+
+type c14Gated struct {
+	conn   int
+	ok     bool
+	err    *c14GateErr
+	fin    chan struct{}
+	start  int64 // instant of the pick
+	t0     int64 // instant Done was called
+	others int   // completions of the same connection reported at a later instant while this one was classifying
 }
 
 type c14Heap []c14Pend
@@ -280,6 +306,10 @@ type c14Sim struct {
 	maxGap         []int64
 	badK, okK      []int   // current streak lengths (sequential completions only)
 	badD, okD      []int64 // smallest spacing inside the current streak
+
+	gated    []*c14Gated // completions whose Done is still classifying its error, oldest first
+	gatedN   []int       // ... per connection
+	nextGate bool
 
 	fail      string // first violation
 	failKnown bool   // it matches the predicate of the (fixed) finding success-ewma-weight
@@ -365,6 +395,7 @@ func c14Adopt(picker balancer.Picker, scs []*c14SubConn, conns []c14Conn) *c14Si
 	s.badD, s.okD = mk(0), mk(0)
 	s.nDone, s.badK, s.okK = make([]int, n), make([]int, n), make([]int, n)
 	s.hadOK = make([]bool, n)
+	s.gatedN = make([]int, n)
 	return s
 }
 
@@ -395,7 +426,8 @@ func (s *c14Sim) invariants(what string) {
 	local, global := true, s.w != nil
 	for i, c := range s.recs {
 		inf := atomic.LoadInt64(&c.inflight)
-		if inf != atomic.LoadInt64(&s.picks[i])-atomic.LoadInt64(&s.dones[i]) {
+		// a completion whose Done has been called and has not returned yet may or may not be counted
+		if want := atomic.LoadInt64(&s.picks[i]) - atomic.LoadInt64(&s.dones[i]); inf > want || inf < want-int64(s.gatedN[i]) {
 			local = false
 		}
 		if s.w != nil && inf != s.w.picks[s.gid[i]]-s.w.dones[s.gid[i]] {
@@ -406,7 +438,7 @@ func (s *c14Sim) invariants(what string) {
 		if !local && !global {
 			inf := atomic.LoadInt64(&c.inflight)
 			pk, dn := atomic.LoadInt64(&s.picks[i]), atomic.LoadInt64(&s.dones[i])
-			if inf != pk-dn {
+			if inf > pk-dn || inf < pk-dn-int64(s.gatedN[i]) {
 				extra := ""
 				if s.w != nil {
 					extra = fmt.Sprintf(" (picker #%d; over all pickers of the builder: picks=%d completions=%d)", s.idx, s.w.picks[s.gid[i]], s.w.dones[s.gid[i]])
@@ -535,13 +567,22 @@ func (s *c14Sim) pick(j int, okSel bool, sel int) int {
 	}
 	lat := s.conns[i%len(s.conns)].Lat * int64(j) / 8
 	s.seq++
-	heap.Push(&s.pend, c14Pend{due: now + lat, seq: s.seq, conn: i, start: now, okSel: okSel, sel: sel, done: res.Done})
+	heap.Push(&s.pend, c14Pend{due: now + lat, seq: s.seq, conn: i, start: now, okSel: okSel, sel: sel, gate: s.nextGate, done: res.Done})
 	return i
 }
 
 // complete reports one pending call and checks the per-completion rules.
 func (s *c14Sim) complete(ev c14Pend) {
+	if ev.gate {
+		s.gateStart(ev)
+		return
+	}
 	i, now := ev.conn, s.now()
+	for _, g := range s.gated {
+		if g.conn == i && now > g.t0 {
+			g.others++
+		}
+	}
 	ok := s.decide(i, now, ev.okSel)
 	before := s.score(i)
 	td := int64(math.MaxInt64)
@@ -674,6 +715,91 @@ func (s *c14Sim) drain() {
 	}
 }
 
+// gateStart reports a completion whose error value blocks in GRPCStatus(): Done runs in
+// its own goroutine and the event loop goes on once it is durably blocked there.
+//
+// What the statement determines for such a completion (whatever the order in which an
+// implementation reads its estimates): it cannot move the score before its error has
+// been classified, and when it does the score must move towards 0 (unacceptable) or
+// towards 1000 (acceptable) RELATIVE TO THE SCORE AS IT IS THEN — completions of the
+// same connection that finished in the meantime must not be undone. The harness
+// releases one blocked classification at a time and reports nothing else until that
+// Done has returned, so "the score as it is then" is the value read just before the
+// release. The in-flight count may or may not include the call while its Done is
+// running; its latency is T(Done called) - T(pick) (or up to T(released) - T(pick) for an
+// implementation that reads the clock after classifying).
+func (s *c14Sim) gateStart(ev c14Pend) {
+	i, now := ev.conn, s.now()
+	ok := s.decide(i, now, ev.okSel)
+	code := []grpccodes.Code{grpccodes.Unavailable, grpccodes.DeadlineExceeded, grpccodes.Internal, grpccodes.DataLoss, grpccodes.Unimplemented}[ev.sel%5]
+	if ok {
+		code = []grpccodes.Code{grpccodes.NotFound, grpccodes.Canceled, grpccodes.ResourceExhausted, grpccodes.Unknown}[ev.sel%4]
+	}
+	g := &c14Gated{conn: i, ok: ok, err: &c14GateErr{code: code, release: make(chan struct{})}, fin: make(chan struct{}), start: ev.start, t0: now}
+	before := s.score(i)
+	s.observeKind(i, now-ev.start, now, 2)
+	di := c14DoneInfo(ok, ev.sel)
+	di.Err = g.err
+	go func() {
+		ev.done(di)
+		close(g.fin)
+	}()
+	kit.Wait()
+	s.lastDone[i] = now
+	s.badK[i], s.okK[i] = 0, 0
+	select {
+	case <-g.fin: // the implementation did not ask for the status: an ordinary completion
+		atomic.AddInt64(&s.dones[i], 1)
+		s.classes["slow-error-not-classified"] = true
+		s.judgeGated(g, before, "completion with a lazily built status (never asked for)")
+		return
+	default:
+	}
+	s.gated = append(s.gated, g)
+	s.gatedN[i]++
+	s.classes["slow-error-classification"] = true
+	if sc := s.score(i); sc != before {
+		s.violation("score-direction", i, "a completion whose error has not been classified yet moved the score %d -> %d", before, sc)
+	}
+}
+
+func (s *c14Sim) judgeGated(g *c14Gated, before uint64, what string) {
+	i, after := g.conn, s.score(g.conn)
+	switch {
+	case after > c14ScoreMax:
+		s.violation("score-range", i, "%s: success %d -> %d outside [0,1000]", what, before, after)
+	case before > c14ScoreMax:
+	case !g.ok && after > before:
+		s.violation("score-direction", i, "%s: success rose %d -> %d on an unacceptable completion (%d other completions of the connection finished while it was classifying its error)", what, before, after, g.others)
+	case g.ok && after+1 < before:
+		s.violation("score-direction", i, "%s: success fell %d -> %d on an acceptable completion (%d other completions of the connection finished while it was classifying its error)", what, before, after, g.others)
+	}
+	s.checkLag(i, what)
+}
+
+// gateRelease lets the oldest blocked classification finish and waits for its Done.
+func (s *c14Sim) gateRelease() {
+	if len(s.gated) == 0 {
+		return
+	}
+	g := s.gated[0]
+	s.gated = s.gated[1:]
+	i, now := g.conn, s.now()
+	if lat := now - g.start; lat > s.maxLat[i] {
+		s.maxLat[i] = lat
+	}
+	before := s.score(i)
+	close(g.err.release)
+	<-g.fin
+	s.gatedN[i]--
+	atomic.AddInt64(&s.dones[i], 1)
+	s.badK[i], s.okK[i] = 0, 0
+	if g.others > 0 {
+		s.classes["slow-classification-overlapped-by-later-completions"] = true
+	}
+	s.judgeGated(g, before, fmt.Sprintf("completion (acceptable=%v) whose error took %dns to classify", g.ok, now-g.t0))
+}
+
 // par: G concurrent callers starting at the same instant, M calls each.
 func (s *c14Sim) par(o c14Op) {
 	var wg sync.WaitGroup
@@ -745,6 +871,13 @@ func c14History(t *testing.T, c c14Case) (v kit.Verdict) {
 		if s.fail != "" {
 			return
 		}
+		defer func() { // a failed case must not leave Done goroutines blocked in the bubble
+			for _, g := range s.gated {
+				close(g.err.release)
+				<-g.fin
+			}
+			s.gated = nil
+		}()
 		s.invariants("after Build")
 		for k, o := range c.Ops {
 			if s.fail != "" {
@@ -755,6 +888,13 @@ func c14History(t *testing.T, c c14Case) (v kit.Verdict) {
 			case "pick":
 				s.pick(o.J, o.B, o.C)
 				s.advance(0)
+			case "gate":
+				s.nextGate = true
+				s.pick(o.J, o.B, o.C)
+				s.nextGate = false
+				s.advance(0)
+			case "rel":
+				s.gateRelease()
 			case "adv":
 				s.advance(o.D)
 				switch {
@@ -780,6 +920,9 @@ func c14History(t *testing.T, c c14Case) (v kit.Verdict) {
 			s.invariants(what)
 		}
 		s.drain()
+		for len(s.gated) > 0 && s.fail == "" {
+			s.gateRelease()
+		}
 		s.invariants("after the last completion")
 		for i, cn := range s.recs {
 			if inf := atomic.LoadInt64(&cn.inflight); inf != 0 && s.fail == "" {
@@ -890,10 +1033,10 @@ func c14Gen(rt *rapid.T) c14Case {
 	nops := rapid.IntRange(1, maxOps).Draw(rt, "nops")
 	century := false
 	for i := 0; i < nops; i++ {
-		k := rapid.SampledFrom([]string{"pick", "pick", "pick", "pick", "adv", "adv", "adv", "burst", "burst", "par"}).Draw(rt, "k")
+		k := rapid.SampledFrom([]string{"pick", "pick", "pick", "pick", "adv", "adv", "adv", "burst", "burst", "par", "gate", "rel"}).Draw(rt, "k")
 		o := c14Op{K: k}
 		switch k {
-		case "pick":
+		case "pick", "gate":
 			o.J = rapid.IntRange(0, 32).Draw(rt, "j")
 			o.C = rapid.IntRange(0, 79).Draw(rt, "c")
 			o.B = rapid.Bool().Draw(rt, "b")
